@@ -23,6 +23,9 @@ def run(ctx):
     ctx.rule("R09-7", "expansion reads the exported environment before the shell-local variables (export does not clear a "
                       "same-named shell variable, and set_env writes only the environment once a name is exported), or "
                       "export removes the shell-local entry")
+    ctx.rule("R09-8", "the environment and the working directory are read when needed, not remembered: no closure that calls "
+                      "env::var / var_os / vars / current_dir is handed to a memoising callee (OnceLock / OnceCell / Lazy / "
+                      "lazy_static initialisers, get_or_init, call_once, get_or_insert_with), crate-wide")
     ctx.rule("R09-6", "export calls env::set_var(name, value) for every parsed NAME=value")
     for crate in ctx.crates:
         cd_rule(ctx, crate)
@@ -30,6 +33,7 @@ def run(ctx):
         envp_rule(ctx, crate)
         api_rules(ctx, crate)
         precedence_rule(ctx, crate, "R09-7")
+        memo_rule(ctx, crate)
 
 
 def cd_rule(ctx, crate):
@@ -276,3 +280,48 @@ def unset_everywhere(ctx, crate, b, rule):
                key="%s|%s|always|%s" % (rule, b.path, what), crate=crate.kind,
                detail=None if ok else "after NAME=a; export NAME=b the name is in both stores: unset NAME leaves one of "
                "them behind ($NAME still expands, or children still inherit it)")
+
+
+ENV_READS = ("std::env::var", "std::env::var_os", "std::env::vars", "std::env::vars_os", "std::env::current_dir")
+MEMOISERS = ("get_or_init", "get_or_try_init", "call_once", "call_once_force", "get_or_insert_with", "force", "get")
+
+
+def memo_rule(ctx, crate):
+    n = 0
+    # closures (and lazy_static initialiser functions) that read the environment
+    readers = {}
+    for p, b in crate.bodies.items():
+        if b.kind not in ("closure", "fn"):
+            continue
+        if any(mir.short(c) in ENV_READS for bb, t, c in b.calls()):
+            readers[p] = b
+    for p, b in sorted(crate.bodies.items()):
+        if b.kind not in ("fn", "closure"):
+            continue
+        for bb, t, c in b.calls():
+            ls = last_seg(c)
+            memo = (ls in MEMOISERS and any(k in c for k in ("OnceLock", "OnceCell", "Lazy", "Once"))) or \
+                   (ls == "new" and any(k in c for k in ("Lazy", "LazyLock", "LazyCell")))
+            if not memo:
+                continue
+            n += 1
+            bad = None
+            for a in b.call_args(bb):
+                for sub in mir.subexprs(b.expand_vars(strip_sites(a))):
+                    if sub[0] == "agg" and sub[1].startswith("closure:"):
+                        cp = sub[1][len("closure:"):].rstrip("()")
+                        if cp in readers:
+                            bad = cp
+                    if sub[0] in ("fnptr", "const") and isinstance(sub[1], str) and sub[1] in readers:
+                        bad = sub[1]
+            # lazy_static: the initialiser is the __static_ref_initialize function next to the deref
+            if bad is None and "lazy_static" in c:
+                base = p.rsplit("::", 1)[0]
+                for rp in readers:
+                    if rp.startswith(base + "::"):
+                        bad = rp
+            ctx.ob("R09-8", p, "the value memoised by %s is not read from the environment" % mir.short(c), bad is None,
+                   key="R09-8|%s|memoised-env-read|%s" % (p, mir.short(c)), where=b.loc(bb), crate=crate.kind,
+                   detail=None if bad is None else "%s reads the environment once; a later `export` / assignment / cd in the "
+                   "same shell is not seen by whoever uses the remembered value" % bad)
+    ctx.ob("R09-8", "crate", "%d memoising call site(s) inspected" % n, True, crate=crate.kind, nontrivial=False)
